@@ -169,7 +169,27 @@ type env struct {
 	ids       []string          // ids[i] = keys[i].String()
 	keyByID   map[string]*cryptokeys.Key
 	octBySize map[int]*cryptokeys.Key
+	st        [nStats]int64     // per-worker oracle counters, summed at the end
+	sigCache  map[string][]byte // reference signatures (constant-stream randomness) by algorithm and digest
 }
+
+// oracle counters
+const (
+	stRoundTrip   = iota // fault-free: kit decrypts / verifies its own output
+	stRefOpensKit        // fault-free: the reference opens kit's output
+	stKitOpensRef        // fault-free: kit opens the reference's output
+	stRejected           // something wrong with the inputs: error, sentinel and no output checked
+	stMutation           // a single-byte change of a valid output: rejection checked
+	stIgnoredArg         // fault-free call whose result must not depend on an argument the algorithm does not take
+	nStats
+)
+
+var statNames = [nStats]string{"roundtrips_checked", "reference_opened_kit_output", "kit_opened_reference_output", "rejections_checked", "mutations_checked", "valid_calls_with_unused_arguments_varied"}
+
+var (
+	envMu   sync.Mutex
+	allEnvs []*env
+)
 
 var (
 	baseKeys []*cryptokeys.Key
@@ -189,6 +209,9 @@ func initKeys() {
 
 func newEnv() *env {
 	e := &env{keyByID: map[string]*cryptokeys.Key{}, octBySize: map[int]*cryptokeys.Key{}}
+	envMu.Lock()
+	allEnvs = append(allEnvs, e)
+	envMu.Unlock()
 	for _, k := range baseKeys {
 		c := k.Clone()
 		e.keys = append(e.keys, c)
